@@ -149,6 +149,15 @@ fn observe(xs: &Xstate) -> Obs {
     Obs { dump, d2 }
 }
 
+/// histories that use the 2D canvas (a host object, shared by clone: the open finding) — any
+/// difference they show is filed under that finding's key, whatever section it appears in
+fn uses_host_object(ops: &[Op], hist: &[usize]) -> bool {
+    hist.iter().any(|h| match &ops[*h] {
+        Op::Eval(_, s) | Op::Step(_, s) => SOURCES[*s].contains("d2-"),
+        _ => false,
+    })
+}
+
 fn op_text(op: &Op) -> String {
     let n = ["A", "B", "C"];
     match op {
@@ -197,7 +206,7 @@ struct Stats {
     clones_alive_checks: u64,
 }
 
-fn explore(ops: &[Op], hist: &mut Vec<usize>, depth: usize, rep: &Reporter, st: &mut Stats, only: Option<usize>) {
+fn explore(ops: &[Op], hist: &mut Vec<usize>, depth: usize, rep: &Reporter, st: &mut Stats, only: Option<usize>, allowed: &[bool]) {
     if hist.len() == depth {
         st.nodes += 1;
         return;
@@ -207,6 +216,9 @@ fn explore(ops: &[Op], hist: &mut Vec<usize>, depth: usize, rep: &Reporter, st: 
             if o != k {
                 continue;
             }
+        }
+        if !allowed[k] {
+            continue;
         }
         let Some(mut w) = replay(ops, hist) else { continue };
         // a history is only interesting once a second copy exists or is being created
@@ -239,7 +251,8 @@ fn explore(ops: &[Op], hist: &mut Vec<usize>, depth: usize, rep: &Reporter, st: 
                     let a = observe(c);
                     if let Some(d) = first_diff(&b.dump, &a.dump, &[]) {
                         let sect = d.split(':').next().unwrap_or("?").to_string();
-                        rep.report_w(&format!("isolation:{}", sect), hist.len() as u64, || {
+                        let key = if uses_host_object(ops, hist) { "host-object:d2-canvas-shared".to_string() } else { format!("isolation:{}", sect) };
+                        rep.report_w(&key, hist.len() as u64, || {
                             jo(vec![("kind", js("clone-isolation")), ("recording", J::B(RECORDING.with(|r| r.get()))), ("history", hist_txt()), ("copy_that_changed", js(["A", "B", "C"][y])), ("difference", js(d.clone()))])
                         });
                         ok = false;
@@ -285,13 +298,15 @@ fn explore(ops: &[Op], hist: &mut Vec<usize>, depth: usize, rep: &Reporter, st: 
             if !panicked {
                 let (a, b) = (observe(w.copies[x].as_ref().unwrap()), observe(&f));
                 if kinds != w.results[x] {
-                    rep.report_w("replay-differs:results", hist.len() as u64, || {
+                    let key = if uses_host_object(ops, hist) { "host-object:d2-canvas-shared" } else { "replay-differs:results" };
+                    rep.report_w(key, hist.len() as u64, || {
                         jo(vec![("kind", js("clone-determinism")), ("history", hist_txt()), ("copy", js(["A", "B", "C"][x])), ("on_the_copy", js(format!("{:?}", w.results[x]))), ("fresh_replay", js(format!("{:?}", kinds)))])
                     });
                     ok = false;
                 } else if let Some(d) = first_diff(&a.dump, &b.dump, &[]) {
                     let sect = d.split(':').next().unwrap_or("?").to_string();
-                    rep.report_w(&format!("replay-differs:{}", sect), hist.len() as u64, || {
+                    let key = if uses_host_object(ops, hist) { "host-object:d2-canvas-shared".to_string() } else { format!("replay-differs:{}", sect) };
+                    rep.report_w(&key, hist.len() as u64, || {
                         jo(vec![("kind", js("clone-determinism")), ("recording", J::B(RECORDING.with(|r| r.get()))), ("history", hist_txt()), ("copy", js(["A", "B", "C"][x])), ("difference_copy_vs_fresh_replay", js(d.clone()))])
                     });
                     ok = false;
@@ -305,7 +320,7 @@ fn explore(ops: &[Op], hist: &mut Vec<usize>, depth: usize, rep: &Reporter, st: 
         }
         if ok || true {
             // keep exploring below a violation too: different defects may hide deeper
-            explore(ops, hist, depth, rep, st, None);
+            explore(ops, hist, depth, rep, st, None, allowed);
         }
         hist.pop();
     }
@@ -584,6 +599,9 @@ pub fn run(cfg: &Cfg) -> i32 {
     let applied = AtomicU64::new(0);
     let checks = AtomicU64::new(0);
     let nops = ops.len();
+    let allowed_all = vec![true; nops];
+    let quick_ops = alphabet(true);
+    let allowed_deep: Vec<bool> = ops.iter().map(|o| quick_ops.contains(o)).collect();
     par_run(cfg.threads, prefixes.len() * nops * 2, 1, |_t, pull| {
         let mut st = Stats { nodes: 0, applied: 0, clones_alive_checks: 0 };
         while let Some(r) = pull() {
@@ -596,7 +614,9 @@ pub fn run(cfg: &Cfg) -> i32 {
                     continue;
                 }
                 let d = hist.len() + prefixes[pi].1;
-                explore(&ops, &mut hist, d, &rep, &mut st, Some(first));
+                // the one-operation-deeper search after the bare clone uses the sub-alphabet of the quick tier
+                let allowed = if prefixes[pi].1 > depth { &allowed_deep } else { &allowed_all };
+                explore(&ops, &mut hist, d, &rep, &mut st, Some(first), allowed);
             }
         }
         nodes.fetch_add(st.nodes, Ordering::Relaxed);
